@@ -68,7 +68,7 @@ class Int:
             v = rng.choice(self.edges)
         elif r < 0.5 and self.hi - self.lo > 600:
             # values around the byte boundary matter for short/long form selection
-            v = rng.choice([x for x in (254, 255, 256, 257, 127, 128, -127, -128, 0x7fff, 0x8000) if self.lo <= x <= self.hi] or [self.lo])
+            v = rng.choice([x for x in (254, 255, 256, 257, 127, 128, -127, -128, 0x7fff, 0x8000, 0xffff, 0x10000, 0x10001) if self.lo <= x <= self.hi] or [self.lo])
         else:
             v = rng.randint(self.lo, self.hi)
         while self.skip and self.skip(v):
